@@ -187,10 +187,11 @@ def _m_str(*a, **k):
         return ''
     x = a[0]
     enc = a[1] if len(a) > 1 else k.get('encoding')
+    errs = a[2] if len(a) > 2 else k.get('errors', 'strict')
     if enc is not None:
         if isinstance(x, (bytes, bytearray)) :
-            return str(x, enc)
-        return seq.decode(x, enc)
+            return str(x, enc, errs)
+        return seq.decode(x, enc, errs)
     tx = type(x)
     if tx is SStr:
         return x
